@@ -76,12 +76,14 @@ Definition mnet0 : mnet := mnet_of gnet0.
 
 (* ---------- the schedule hypotheses, per event ---------- *)
 (* Net2's (auth), (near), (fresh) for the datagram level, plus
-   for A: the application only sends payloads that fit one datagram (unfragmented traffic);
+   for A: the application only sends payloads that fit one datagram (unfragmented traffic), with a
+          user callback or none (the other icb constructors are internal to the connection);
    for B, when it accepts a datagram: the message labels are as described at mwf, and processing
    the datagram raises no exception (recv_msgs stops at the first exception: the messages behind a
    handshake message whose verification fails are never looked at). *)
+Definition user_icb (k : icb) : Prop := match k with INone | IUser _ => True | _ => False end.
 Definition small_x (e : env) (x : ev) : Prop :=
-  match x with ESend p _ _ => len p <= e_max_payload e | _ => True end.
+  match x with ESend p _ k => len p <= e_max_payload e /\ user_icb k | _ => True end.
 
 Definition wf3_ev (e : env) (M : mnet) (vj : lev3) : Prop :=
   wf2_ev (m_g M) (fst vj) /\
